@@ -9,6 +9,7 @@ From V Require Import Model.Align Model.SnapOps Model.SeqAssign Model.SeqUpdate 
 From V Require Import Model.TreeAssign Proofs.TreeAssignProofs.
 From Coq Require Import ZArith.
 From V Require Import Model.SeqAssign Model.DictAssign Proofs.DictAssignProofs.
+From V Require Import Model.CallAssign Proofs.CallAssignProofs.
 Close Scope Z_scope.
 
 Theorem C02_seq_fix_value :
@@ -152,6 +153,39 @@ Theorem C02_dict_nofix_value :
   map pair_of (dict_result F olds news) = map (fun e : entry => (e_key e, l_val (e_leaf e))) olds.
 Proof. exact dict_nofix_value. Qed.
 
+(* constructor calls of dataclass-like values (Model/CallAssign.v; arguments are nested lists / tuples): after fix no positional argument is left and
+   every keyword argument holds the value of its field in the newly observed object ... *)
+Theorem C02_call_fix_values :
+  forall (F : flags) (c : call) (fs : list field) (i : citem),
+  f_fix F = true -> managed_call c -> wf_call c fs -> In i (call_result F c fs) ->
+  match i with
+  | CPos _ => False
+  | CKw k r => exists f : field, In f fs /\ fd_name f = k /\ eval_r r = fd_val f
+  end.
+Proof. exact call_fix_values. Qed.
+
+(* ... every field that does not hold its default is given ... *)
+Theorem C02_call_fix_complete :
+  forall (F : flags) (c : call) (fs : list field) (f : field),
+  f_fix F = true -> wf_call c fs -> In f fs -> fd_default f = false -> exists r : rtree, In (CKw (fd_name f) r) (call_result F c fs).
+Proof. exact call_fix_complete. Qed.
+
+(* ... and no keyword is given twice: the repaired call evaluates to the observed object *)
+Theorem C02_call_fix_nodup :
+  forall (F : flags) (c : call) (fs : list field),
+  f_fix F = true -> wf_call c fs -> NoDup (kw_names (call_result F c fs)).
+Proof. exact call_fix_nodup. Qed.
+
+(* without fix every argument stays positional / keyword and keeps its value (only a keyword holding the default may go, category update) *)
+Theorem C02_call_nofix_values :
+  forall (F : flags) (c : call) (fs : list field) (i : citem),
+  f_fix F = false -> In i (call_result F c fs) ->
+  match i with
+  | CPos r => exists t : tree, In t (c_pos c) /\ eval_r r = eval t
+  | CKw k r => exists t : tree, In (k, t) (c_kws c) /\ eval_r r = eval t
+  end.
+Proof. exact call_nofix_values. Qed.
+
 Print Assumptions C02_seq_fix_value.
 Print Assumptions C02_seq_nofix_value.
 Print Assumptions C02_align_no_i_then_d.
@@ -171,3 +205,7 @@ Print Assumptions C02_assign_fuel_irrelevant.
 Print Assumptions C02_dict_fix_value.
 Print Assumptions C02_dict_fix_nodup.
 Print Assumptions C02_dict_nofix_value.
+Print Assumptions C02_call_fix_values.
+Print Assumptions C02_call_fix_complete.
+Print Assumptions C02_call_fix_nodup.
+Print Assumptions C02_call_nofix_values.
